@@ -47,7 +47,7 @@ func (e *Engine) GenUnit(fn *ssa.Function) (u *Unit) {
 		g.vals[p] = name
 		g.assumeType(name, p.Type())
 		argTerms = append(argTerms, name)
-		g.inputs = append(g.inputs, name)
+		g.addWitness(p.Name(), name)
 	}
 	for _, fv := range fn.FreeVars {
 		name := q("fv." + fv.Name())
@@ -506,7 +506,7 @@ func (g *vcgen) block(b *ssa.BasicBlock) {
 				g.unsupported("loop invariant: %v", err)
 				continue
 			}
-			g.oblige("inv", g.loopSig[s]+":"+clauseLabel(inv, i)+"/pres", t, inv.Src)
+			g.obligeAt("inv", g.loopSig[s]+":"+clauseLabel(inv, i)+"/pres", fmt.Sprintf("back edge from b%d", b.Index), t, inv.Src)
 		}
 		g.pc = savedPC
 	}
